@@ -458,7 +458,16 @@ def call_lua_sandbox(
             frame_args = {}
             for k, arg in args.items():
                 arg = re.sub(r"(?si)(<\s*noinclude\s*/\s*>|\n$)", "", arg)
-                frame_args[k] = (arg, False, False, False)
+                # These values are expanded already (they are the arguments
+                # of the enclosing template): Lua gets them as they are,
+                # "{{x}}" produced by {{((}}x{{))}} is not a call to expand.
+                frame_args[k] = (
+                    ctx._finalize_expand(arg),
+                    False,
+                    False,
+                    False,
+                    True,
+                )
         else:
             assert isinstance(args, (list, tuple))
             frame_args = {}
@@ -505,6 +514,7 @@ def call_lua_sandbox(
                     m is not None,
                     _is_nowiki_cookie(ctx, arg[:1]),
                     _is_nowiki_cookie(ctx, arg[-1:]),
+                    False,
                 )
         frame_args_lt: "_LuaTable" = lua.table_from(frame_args)  # type: ignore[union-attr]
 
